@@ -33,6 +33,7 @@
 #define OP 0
 #endif
 #define NCH 3
+#define NALLOC 5      /* allocations of either operation in this scenario: FAULT_AT 1..5 hit, 6 proves that there is no sixth */
 static const unsigned tags[NCH] = {0x801, 0x802, 0x805};
 
 /* model of KSI_TlvTemplate_construct: one child element, allocated through the library allocator */
@@ -105,7 +106,9 @@ void harness(void) {
 		int anchor_gone = len == 2 && e0 == orig[0] && e1 == orig[1] && sig->calendarAuthRec == NULL && sig->publication == NULL;
 		CHECK(untouched || anchor_gone, "C19.H9 after a failed replacePublicationRecord the signature is consistent: untouched, or old anchor removed and nothing half-built attached");
 		CHECK(count_tag(lst, 0x803) == 0 && pub->ref == 1, "C19.H9 a failed replacePublicationRecord attaches no 0x803 element and does not keep the caller's record");
+#if FAULT_AT >= 1 && FAULT_AT <= NALLOC
 		if (anchor_gone) WITNESS_POINT("failure after the old anchor was removed (non-atomic but consistent)");
+#endif
 	}
 #else
 	/* fault-free result: [0x801, new 0x802], auth record gone, chain = newcal */
@@ -139,7 +142,9 @@ void harness(void) {
 		CHECK(res == KSI_OK && len == 2 && e0 == orig[0] && e1 != NULL && KSI_TLV_getTag(e1) == 0x802 && sig->calendarChain == newcal && sig->calendarAuthRec == NULL,
 			"C19.H9 applyCalendarHashChain repeated without fault gives the fault-free result");
 #endif
+#if FAULT_AT >= 1 && FAULT_AT <= NALLOC
 		WITNESS_POINT("operation repeated after a fault");
+#endif
 	}
 	/* release what the caller owns: the builder (with the signature and everything attached to it) and its own references */
 	KSI_SignatureBuilder_free(b);
@@ -148,7 +153,9 @@ void harness(void) {
 	(void)pub; free(pub);
 #endif
 	WITNESS_POINT("surgery scenario finished");
-#if FAULT_AT >= 1 && FAULT_AT <= 3
+#if FAULT_AT >= 1 && FAULT_AT <= NALLOC
 	if (VERIF_fault_hit) WITNESS_POINT("fault was injected");
+#elif FAULT_AT > NALLOC
+	CHECK(!VERIF_fault_hit, "C19.H9 the enumeration of allocation indices is complete (no allocation beyond NALLOC)");
 #endif
 }
